@@ -54,7 +54,8 @@ def run_case(ctx, mr, case):
         if dev:   # contents are opened with dev engines: rebuild with dev KeyX
             pass
         built[c['index']] = (image, info, kwargs)
-        data = image + b'\0' * ((-len(image)) % 16)
+        # trailing bytes after the NCCH make the content sizes cover every residue mod 64 (only 16-byte alignment is required)
+        data = image + b'\0' * ((-len(image)) % 16) + b'\0' * (16 * (c['id'] % 4))
         contents.append(dict(id=c['id'], index=c['index'], data=data, encrypted=c['encrypted']))
         if kwargs.get('seed'):
             seeds[c['spec']['program_id']] = kwargs['seed']
